@@ -42,6 +42,20 @@ func Corpus() []RunDesc {
 			Attacks: []Attack{{Name: "acc-false", Phase: 4, By: 5, Target: 2}}},
 		{ID: "corpus-bad-points-reconstruct", N: 5, T: 2, Corrupt: []int{2}, Ops: distinctOps(5), OrderSeed: 18, Shuffle: true,
 			Attacks: []Attack{{Name: "pts-mutate", Phase: 7, By: 2, K: 1}}},
+		// self-accusation after a targeted bad share (fixed: the accuser is disqualified, nobody aborts)
+		{ID: "corpus-self-accusation", N: 3, T: 1, Corrupt: []int{1}, Ops: distinctOps(3), OrderSeed: 955170, Shuffle: true,
+			Attacks: []Attack{{Name: "sh-wrong-key", Phase: 3, By: 1, Target: 2, K: 3}, {Name: "acc-self", Phase: 4, By: 1, Target: 3, K: 3}}},
+		// C01-b: 1's points fit the shares of 2 and 5 only; 5 accuses 1 falsely; member 2 hears 5
+		// before it hears 3 and 4 and blames 5, members 3 and 4 hold no points of 1 and blame 1 only
+		{ID: "corpus-C01b-false-points-accusation", N: 5, T: 2, Corrupt: []int{1, 5}, Ops: distinctOps(5), OrderSeed: 11, Shuffle: true,
+			Attacks: []Attack{{Name: "points-poly-offset", Phase: 7, By: 1, Val: 7, Set: []int{2, 5}}, {Name: "acc-false", Phase: 8, By: 5, Target: 1}}},
+		// C01-f: 1 sends 2 a bad share (2 disqualifies 1 on its own and no longer listens to 1);
+		// 5 sends 1 a bad share, 1 accuses 5 with good reason
+		{ID: "corpus-C01f-accuser-disqualified-locally", N: 5, T: 2, Corrupt: []int{1, 5}, Ops: distinctOps(5), OrderSeed: 22,
+			Attacks: []Attack{{Name: "sh-wrong-value", Phase: 3, By: 5, Target: 1}, {Name: "sh-wrong-value", Phase: 3, By: 1, Target: 2}}},
+		// C01-d: 1's shares message omits 5, 5's commitments message is too short
+		{ID: "corpus-C01d-omit-disqualified", N: 5, T: 2, Corrupt: []int{1, 5}, Ops: distinctOps(5), OrderSeed: 23, Shuffle: true,
+			Attacks: []Attack{{Name: "sh-omit", Phase: 3, By: 1, Target: 5}, {Name: "cm-short", Phase: 3, By: 5}}},
 		{ID: "corpus-reveal-omit", N: 5, T: 2, Corrupt: []int{2, 4}, Ops: distinctOps(5), OrderSeed: 19, Shuffle: true,
 			Attacks: []Attack{{Name: "silent-from", Phase: 7, By: 2}, {Name: "rev-omit", Phase: 10, By: 4}}},
 	}
@@ -99,8 +113,8 @@ func RandomRun(r *lib.Rng, id string, maxN int, known bool) RunDesc {
 		} else {
 			a.Target = pick(r, honest)
 		}
-		if a.Target == a.By {
-			a.Target = honest[0]
+		if a.Target == a.By || HonestTargetOnly[a.Name] {
+			a.Target = pick(r, honest)
 		}
 		switch a.Name {
 		case "points-poly-offset", "pts-conflict":
@@ -127,9 +141,16 @@ func RandomRun(r *lib.Rng, id string, maxN int, known bool) RunDesc {
 
 // KnownDefect names the deviation families that are recorded in findings/C01.json; they are
 // only generated as single-deviation runs.
-var KnownDefect = map[string]bool{
-	"points-poly-offset": true,
-	"pts-conflict":       true,
+var KnownDefect = map[string]bool{}
+
+// HonestTargetOnly: deviations that single out one receiver. Aimed at another CORRUPT seat they open
+// the families recorded in findings/C01.json (C01-b, C01-d, C01-f: one corrupt seat gives another
+// corrupt seat a reason for a justified accusation, or hides behind a seat that is disqualified in
+// the same loop). Random runs aim them at honest seats; the recorded families run from the corpus
+// in their canonical form, so that the findings' matches stay narrow.
+var HonestTargetOnly = map[string]bool{
+	"sh-omit": true, "sh-garbage": true, "sh-wrong-value": true, "sh-wrong-key": true,
+	"acc-false": true, "acc-bad-key": true,
 }
 
 // ---------------------------------------------------------------- main
